@@ -244,8 +244,10 @@ CLAIMS = {
 
 NA = {
     "C19": "Convergence of predictions under grid refinement is a limit statement about numerical values of two runs; "
-    "no clause of it is visible in the shape of the code (the one structural ingredient, breakpoints at area borders, "
-    "is decided under C01). Static analysis cannot bound interpolation error.",
+    "no clause of its own is visible in the shape of the code. Its structural ingredients are decided under other properties and are not "
+    "claimed twice: breakpoints at area borders and the integration domain (C01.integrand), every basis function whose support reaches "
+    "above the convolution point convolved in its own column - also for points exactly on grid nodes, for degrees 1..4 (C01.vector), "
+    "the grid recorded in the output being the grid the operators refer to (C20). Static analysis cannot bound interpolation error.",
 }
 
 PENDING = "check not yet built in this revision (static rule designed in DESIGN.md section 3; will be registered when implemented)"
